@@ -6,7 +6,7 @@ from . import c01, campaign, engine, fmt, gen, segs
 
 LEVEL = 'proof'
 PID = 'C15'
-WEIGHTS = {'rect': 0.25, 'oct': 0.3, 'share': 0.15, 'lat': 0.15, 'gp': 0.15, 'fan': 0.05, 'boxes': 0.05}
+WEIGHTS = {'rect': 0.25, 'oct': 0.3, 'share': 0.15, 'lat': 0.15, 'gp': 0.15, 'fan': 0.05, 'boxes': 0.05, 'degen': 0.06, 'tjo': 0.08, 'abut': 0.05}
 
 
 def pair_line(cid, s1, s2, subj1, subj2, c1=1, c2=2, prec=64):
@@ -262,6 +262,11 @@ def run(rep, tier, seed):
     # ---- event sets of valid operands, before and after subdivision
     npairs = 100 if tier == 'quick' else 2500
     cases = [c for c in campaign.make_cases(rng, npairs, WEIGHTS, ops='UI') if c.n_edges() <= (40 if tier == 'quick' else 90)]
+    # rings written with consecutively repeated vertices (collapsed edges must not become events)
+    for c in list(cases):
+        if c.meta.get('pair', 0) % 4 == 2:
+            cases.append(bc.Case(c.cid + 'w', c.family, c.prec, c.op, gen.with_repeats(rng, c.lhs), gen.with_repeats(rng, c.rhs),
+                                 dict(c.meta, repeats=True)))
     olines, ometa = [], []
     for c in cases:
         for stage in (['q', 's'] if c.op == 'U' else ['s']):
@@ -279,7 +284,7 @@ def run(rep, tier, seed):
             continue              # outcome failures are C03's business
         n, evs, m1, m, m2 = po
         sizes.append(n)
-        exact = c.family in ('rect', 'oct', 'share', 'boxes', 'fan')
+        exact = c.family in ('rect', 'oct', 'share', 'boxes', 'fan', 'tjo', 'abut')
         bad = judge_orders(evs, n, m1, m, m2, exact, n4=n4)
         if bad:
             if c.family in ('lat', 'gp', 'straddle') and oimpl[i] == omodel[i] and gen.degenerate_arrangement(c.lhs, c.rhs):
